@@ -153,10 +153,23 @@ Definition mixv (v : Z) (cd : N) (c : Z) : Z := ((v * 31 + Z.of_N cd * 7 + c * 1
 (* what every critical section of the harness does: the value flowing through is mixed
    with the label and with the number of critical sections the state has seen so far; the
    state counts and logs the label. *)
+(* one pre-handler in seven returns the EMPTY value (the nil map, the zero value of the node's value type):
+   what a handler returns is what the node / its successors receive also when it is the zero value.  A
+   post-handler does so (one in five) only for node ids of the upper half of a block of 1000: the generator
+   gives such ids to some graphs that are not Workflows - the Workflow graphs of the harness map the output
+   keys of every node by name, an empty output is a legitimate mapping failure there.  Not the ProcessState
+   callbacks: their values never pass through eino. *)
+Definition cs_empty (k : kind) (n : N) (c : Z) : bool :=
+  match k with
+  | KPre => Z.eqb ((Z.of_N n * 5 + c * 3) mod 7) 0
+  | KPost => N.leb 500 (n mod 1000) && Z.eqb ((Z.of_N n * 3 + c) mod 5) 0
+  | KBody _ => false
+  end.
+
 Definition cs_fun (k : kind) (n : N) (x : X) (s : sstate) : X * sstate :=
   let cd := code n k in
   let c := s_total s in
-  (map (fun kv => (fst kv, mixv (snd kv) cd c)) x,
+  ((if cs_empty k n c then [] else map (fun kv => (fst kv, mixv (snd kv) cd c)) x),
    mkS (c + 1)%Z (cnt_incr cd (s_cnt s)) (s_log s ++ [cd])).
 
 Definition leaf_out (n : N) (x : X) : X :=
